@@ -384,6 +384,18 @@ func (x *Engine) loopHeader(fr *Frame, li *loopInfo, st *State) {
 		}
 		if phi.Comment == "rangeindex" {
 			x.assume(st, fmt.Sprintf("(>= %s (- 1))", fr.vals[phi].T))
+			// by construction of a range loop the number of completed iterations never exceeds the length
+			for _, ins2 := range h.Instrs {
+				if cmp, ok := ins2.(*ssa.BinOp); ok && cmp.Op == token.LSS {
+					if inc, ok := cmp.X.(*ssa.BinOp); ok && inc.Op == token.ADD && inc.X == ssa.Value(phi) {
+						if lv, ok := fr.vals[cmp.Y]; ok {
+							x.assume(st, fmt.Sprintf("(<= (+ %s 1) %s)", fr.vals[phi].T, lv.T))
+						} else if c, ok := cmp.Y.(*ssa.Const); ok {
+							x.assume(st, fmt.Sprintf("(<= (+ %s 1) %s)", fr.vals[phi].T, x.constVal(c).T))
+						}
+					}
+				}
+			}
 		}
 	}
 }
@@ -494,6 +506,14 @@ func (x *Engine) writeSet(fr *Frame, li *loopInfo) (map[string]bool, map[string]
 				}
 			case *types.Pointer:
 				arr := u.Elem().Underlying().(*types.Array)
+				if fa, ok := a.X.(*ssa.FieldAddr); ok {
+					if _, isS := structOf(arr.Elem()); !isS {
+						owner := fa.X.Type().Underlying().(*types.Pointer).Elem()
+						stt, _ := structOf(owner)
+						keys[x.fieldKey(owner, stt.Field(fa.Field))] = true
+						return
+					}
+				}
 				if _, ok := structOf(arr.Elem()); ok {
 					x.structKeys(arr.Elem(), keys)
 				} else {
@@ -579,7 +599,7 @@ func (x *Engine) writeSet(fr *Frame, li *loopInfo) (map[string]bool, map[string]
 			cc := i.Common()
 			if cc.IsInvoke() {
 				key := x.ifaceKey(cc.Value.Type(), cc.Method)
-				if strings.HasPrefix(key, repoPfx+"exporter/metric.") {
+				if strings.HasPrefix(key, repoPfx+"exporter/metric.") || strings.HasPrefix(key, "reflect.") {
 					return
 				}
 				if fs := x.db.Funcs[key]; fs != nil {
@@ -616,7 +636,7 @@ func (x *Engine) writeSet(fr *Frame, li *loopInfo) (map[string]bool, map[string]
 			}
 			if callee == nil {
 				if n, ok := cc.Value.Type().(*types.Named); ok && n.Obj().Pkg() != nil {
-					if fs := x.db.Funcs[n.Obj().Pkg().Path()+"."+n.Obj().Name()+".call"]; fs != nil && x.specModKeys(fs, keys) {
+					if fs := x.db.Funcs[n.Obj().Pkg().Path()+"."+n.Obj().Name()+".call"]; fs != nil && (fs.Pure || x.specModKeys(fs, keys)) {
 						return
 					}
 				}
@@ -639,6 +659,13 @@ func (x *Engine) writeSet(fr *Frame, li *loopInfo) (map[string]bool, map[string]
 				case "none":
 				case "arg0":
 					storeKeys(cc.Args[0])
+				case "atomicvalue":
+					x.regComp("AtomicValue", "(Array Int Iface)")
+					if isFreshBase(cc.Args[0]) {
+						freshOnly["AtomicValue"] = true
+					} else {
+						arb["AtomicValue"] = true
+					}
 				case "alloc":
 					keys["$alloc"] = true
 				case "clock":
